@@ -1,7 +1,7 @@
 (* C16 - GCC target bitrate stays finite, within bounds, and consistent.
    Decision layer; every float stage is an arbitrary integer oracle (the [raw]
    arguments of the ops), so the theorems cover NaN/Inf/overflowing conversions. *)
-From IV Require Import Base.Word Model.GccDecision Proofs.GccDecisionProofs Generated.GoCores Proofs.GeneratedEq.
+From IV Require Import Base.Word Model.GccDecision Proofs.GccDecisionProofs Generated.GoCoresC16 Proofs.GeneratedEqC16.
 
 (* For every configuration min <= initial <= max, every sequence of delay-statistics
    and loss updates and every value the float stages may produce: the published
